@@ -20,6 +20,7 @@ CONSTANTS
   Bug_DeletePinned = FALSE
   Bug_ImmDropEarly = FALSE
   Bug_FlushDeepDuringCompaction = FALSE
+  Bug_ExpandKeepsParents = FALSE
   Bug_SnapshotSwapsBounds = FALSE
   Bug_SeqFromManifestOnly = FALSE
   Bug_ReplaySkipsOlderLogs = FALSE
